@@ -587,6 +587,7 @@ func (e *Env) setup() {
 			u, _ := url.Parse("http://mem")
 			e.ch = &httpgrpc.Channel{Transport: newMemTransport(srv, sc.EnvGiveUp), BaseURL: u}
 		}
+	case "direct":
 	default:
 		panic("bad transport " + sc.Transport)
 	}
@@ -608,6 +609,10 @@ func (e *Env) setup() {
 func (e *Env) body() {
 	if e.ch == nil {
 		e.setup()
+	}
+	if e.sc.Transport == "direct" {
+		e.directBody()
+		return
 	}
 	if e.sc.Cancel == "cancel" {
 		e.goTask("canceller", func() {
